@@ -46,6 +46,13 @@ CONDS = ["a", "a < b", "x & 1", "!b", "(a & 3) == 1"]
 LOOPS = ["for (i = 0; i < 3; i++)", "for (i = 0; i < n; i++)", "for (i = n; i != 0; i--)", "for (i = 0; i < 0; i++)", "for (i = 0; i < (a & 3); i += 1)"]
 
 
+COND_KINDS = [
+    "(uint8_t)V", "(int16_t)V", "(uint16_t)(V >> 4)", "(int32_t)((uint64_t)(uint32_t)V << 4)", "(uint32_t)V", "(int64_t)V", "(uint8_t)(uint16_t)V",
+    "-V", "~V", "(V - 1)", "((uint32_t)V * 16)", "(V >> 8)", "(V & 0xff00)", "(V ? b : 0)",
+    "(int8_t)V", "(uint16_t)V", "(uint64_t)V", "((uint32_t)V << 8)", "(V ^ b)", "(x = V)", "(uint8_t)(V >> 28)", "(int32_t)(y + (uint32_t)V)", "(V | 0)", "((uint8_t)V + 0)",
+]
+
+
 def mk(stmts, tag):
     return P(DECLS, PRE + " " + stmts, OBS, tag=tag)
 
@@ -113,6 +120,23 @@ def space(tier):
                     for t in SMALL[:3]:
                         out.append(mk("%s { if (%s) { %s } else { for (j = 0; j < 2; j++) { %s } } }" % (lp, c, s, t), ("d4", lp, c, s, t)))
                         out.append(mk("if (%s) { %s { if (x & 1) { %s } else { %s } } }" % (c, lp, s, t), ("d4b", lp, c, s, t)))
+    # the controlling expression: every expression kind (V stands for the tested variable) in every
+    # position that tests a value against zero
+    kinds = COND_KINDS if tier == "thorough" else COND_KINDS[:14]
+    for k in kinds:
+        ca, ci = k.replace("V", "a"), k.replace("V", "i")
+        for pos, st in [
+            ("if", "if (%s) { x += 1; } else { x += 2; }" % ca),
+            ("if-noelse", "if (%s) { y += 1; }" % ca),
+            ("elseif", "if (b & 1) { x = 5; } else if (%s) { x = 6; } else { x = 7; }" % ca),
+            ("for", "x = 0; for (i = a; %s; i = (i >> 3) & 0xfffffff) { x += 1; }" % ci),
+            ("cond", "x = %s ? 3 : 4;" % ca),
+            ("not", "x = !%s;" % ca),
+            ("and", "x = %s && b;" % ca),
+            ("or", "x = (b & 1) || %s;" % ca),
+            ("nested", "if (b & 2) { if (%s) { x = 1; } else { x = 2; } }" % ca),
+        ]:
+            out.append(mk(st, ("condkind", pos, k)))
     seen = set()
     res = []
     for s in out:
